@@ -211,16 +211,14 @@ func (r *smReplay) applyMove(mv smMove, genuine []byte) []byte {
 		nd = append(nd, []byte{0x80, 0x01, 0xAA})
 		nd = append(nd, dos[at(mv.I):]...)
 		return joinDOs(nd, sw)
-	case "forge87":
-		f := make([]byte, 2+1+r.suite.SscLen)
-		r.rnd.Read(f)
-		f[0], f[1], f[2] = 0x87, byte(1+r.suite.SscLen), 0x01
-		nd := append([][]byte{f}, dos...)
-		return joinDOs(nd, sw)
-	case "forge85":
-		// DO'85' with junk, or with the value of the DO'87' of the earlier response seen[I] (with the
-		// padding-content indicator, which is how the library reads a DO'85'; without it in every third case),
-		// in front of the untouched genuine objects
+	case "forge87", "forge85":
+		// an unauthenticated cryptogram object with junk (I = 0) or with the value of the DO'87' of the earlier response
+		// seen[I], in front of the untouched genuine objects (X = 0) or behind them, after DO'8E' (X = 1). For DO'85' the
+		// value keeps the padding-content indicator (how the library reads a DO'85'); without it in every third case.
+		tag := byte(0x87)
+		if mv.Name == "forge85" {
+			tag = 0x85
+		}
 		var val []byte
 		if mv.I == 0 {
 			val = make([]byte, 1+r.suite.SscLen)
@@ -234,7 +232,7 @@ func (r *smReplay) applyMove(mv smMove, genuine []byte) []byte {
 						if d[0] == 0x87 {
 							if tl, err := chipsim.ParseTLVs(d); err == nil && len(tl) == 1 && len(tl[0].Value) > 1 {
 								val = append([]byte{}, tl[0].Value...)
-								if r.rnd.Intn(3) == 0 {
+								if tag == 0x85 && r.rnd.Intn(3) == 0 {
 									val = val[1:]
 								}
 							}
@@ -243,19 +241,24 @@ func (r *smReplay) applyMove(mv smMove, genuine []byte) []byte {
 				}
 			}
 			if val == nil {
-				core.Infra("forge85: response %d has no DO'87'", mv.I)
+				core.Infra("%s: response %d has no DO'87'", mv.Name, mv.I)
 			}
 		}
 		var f []byte
 		switch {
 		case len(val) < 128:
-			f = append([]byte{0x85, byte(len(val))}, val...)
+			f = append([]byte{tag, byte(len(val))}, val...)
 		case len(val) < 256:
-			f = append([]byte{0x85, 0x81, byte(len(val))}, val...)
+			f = append([]byte{tag, 0x81, byte(len(val))}, val...)
 		default:
-			f = append([]byte{0x85, 0x82, byte(len(val) >> 8), byte(len(val))}, val...)
+			f = append([]byte{tag, 0x82, byte(len(val) >> 8), byte(len(val))}, val...)
 		}
-		nd := append([][]byte{f}, dos...)
+		var nd [][]byte
+		if mv.X == 0 {
+			nd = append([][]byte{f}, dos...)
+		} else {
+			nd = append(append([][]byte{}, dos...), f)
+		}
 		return joinDOs(nd, sw)
 	}
 	core.Infra("unknown move %q", mv.Name)
